@@ -341,6 +341,10 @@ func Prepare(r *core.Run, extra, race bool) (*Prepared, error) {
 	formOf := func(ct string) M { return M{ct: M{"schema": M{"$ref": "#/components/schemas/Form"}}} }
 	paths["/form"] = M{"post": M{"operationId": "form", "requestBody": M{"required": true, "content": formOf("application/x-www-form-urlencoded")}, "responses": M{"200": M{"description": "ok"}}}}
 	paths["/multi"] = M{"post": M{"operationId": "multi", "requestBody": M{"required": true, "content": formOf("multipart/form-data")}, "responses": M{"200": M{"description": "ok"}}}}
+	// the same bodies, optional: the request type is a wrapper around the form type
+	paths["/formopt"] = M{"post": M{"operationId": "formopt", "requestBody": M{"required": false, "content": formOf("application/x-www-form-urlencoded")}, "responses": M{"200": M{"description": "ok"}}}}
+	paths["/multiopt"] = M{"post": M{"operationId": "multiopt", "requestBody": M{"required": false, "content": formOf("multipart/form-data")}, "responses": M{"200": M{"description": "ok"}}}}
+	paths["/bodyopt"] = M{"post": M{"operationId": "bodyopt", "requestBody": M{"required": false, "content": jsonOf("Body")}, "responses": M{"200": M{"description": "ok"}}}}
 	octets := M{"application/octet-stream": M{"schema": M{"type": "string", "format": "binary"}}}
 	paths["/stream"] = M{"post": M{"operationId": "stream", "requestBody": M{"required": true, "content": octets}, "responses": M{"200": M{"description": "ok", "content": octets}}}}
 	if extra {
@@ -420,11 +424,13 @@ func Prepare(r *core.Run, extra, race bool) (*Prepared, error) {
 			}
 		}
 	}
-	for _, b := range bodies {
-		calls = append(calls, dcall{Method: "Body", HasReq: true, Req: toGo(b.B, bodyFields), Keys: [][]string{}})
-		metas = append(metas, meta{kind: "body", vary: -1, sent: b.B})
+	for _, method := range []string{"Body", "Bodyopt"} {
+		for _, b := range bodies {
+			calls = append(calls, dcall{Method: method, HasReq: true, Req: toGo(b.B, bodyFields), Keys: [][]string{}})
+			metas = append(metas, meta{kind: "body", vary: -1, sent: b.B, descr: method})
+		}
 	}
-	for _, method := range []string{"Form", "Multi"} {
+	for _, method := range []string{"Form", "Multi", "Formopt", "Multiopt"} {
 		for _, f := range forms {
 			calls = append(calls, dcall{Method: method, HasReq: true, Req: toGo(f.B, formFields), Keys: [][]string{}})
 			metas = append(metas, meta{kind: "form", vary: -1, sent: f.B, descr: method})
@@ -559,7 +565,7 @@ func Check(r *core.Run) error {
 				}
 			}
 			line = M{"kind": "body", "sent": mt.sent, "outcome": res.Outcome, "got": got, "mwgot": mwgot}
-			desc = append(desc, fmt.Sprintf("body given %s -> %s status %d handler saw %s middleware saw %s %s", show(mt.sent), res.Outcome, res.Status, show(got), show(mwgot), res.Err))
+			desc = append(desc, fmt.Sprintf("%s given %s -> %s status %d handler saw %s middleware saw %s %s", mt.descr, show(mt.sent), res.Outcome, res.Status, show(got), show(mwgot), res.Err))
 			r.Nontrivial("body|" + res.Outcome)
 		case "stream":
 			field := func(v M) M {
